@@ -80,6 +80,30 @@ def runNorm (cfg : Cfg) (args : List String) : String × String :=
     | _, _, _, _ => ("bad-op", "-")
   | _ => ("bad-op", "-")
 
+/-- `normx <k> <bh1> <bh2>`: a long raw hash whose normalisation may or may not fit the short form:
+    normalise-then-narrow vs. parsing the raw text directly into the short / long normalising types -/
+def runNormX (cfg : Cfg) (args : List String) : String × String :=
+  match args with
+  | [k, b1, b2] =>
+    match natArg k, bytesOfHex b1, bytesOfHex b2 with
+    | some k, some b1, some b2 =>
+      match FH.newFromInternalsNearRaw 64 false k.toUInt8 b1 b2 with
+      | none => ("PANIC", "-")
+      | some raw =>
+        let ln := FH.normalize false raw
+        let r1 := match FH.tryFromLong ln with | some n => fhText n | none => "ERR"
+        let r2 := match FH.parse cfg 32 true raw.text with | .ok (f, _) => fhText f | .error _ => "ERR"
+        let r3 := match FH.parse cfg 64 true raw.text with
+          | .ok (f, _) => (match FH.tryFromLong f with | some n => fhText n | none => "ERR")
+          | .error _ => "ERR"
+        let c2 := Spec.collapse b2
+        let sp := if c2.length ≤ 32 then strOfBytes (Spec.textOf k (Spec.collapse b1) c2) else "ERR"
+        -- under the strict parser the short normalising type rejects a raw block hash 2 above its capacity
+        let sp2 := if cfg.strictParser && b2.length > 32 then "ERR" else sp
+        (s!"r={r1},{r2},{r3}", s!"r={sp},{sp2},{sp}")
+    | _, _, _ => ("bad-op", "-")
+  | _ => ("bad-op", "-")
+
 /-! ### dual (C07) -/
 
 def dhEqAll (l : List DH) : Bool :=
@@ -100,11 +124,14 @@ def runDual (cfg : Cfg) (args : List String) : String × String :=
         let c := match DH.parse cfg s2 raw.text with
           | some (.ok (d, _)) => some d | _ => none
         let e := DH.newFromInternals s2 (BlockSize.fromLogInternal k.toUInt8) b1 b2
-        match a, b, c, e with
-        | some a, some b, some c, some e =>
-          let same := dhEqAll [a, b, c, e]
-          let hw := [b, c, e].all fun d => DH.hashWrites d == DH.hashWrites a
-          let ce := [b, c, e].all fun d => DH.cmp a d == .eq
+        -- a reused object that still holds a hash whose RLE blocks are completely filled
+        let dirtyRaw := FH.newFromInternalsNearRaw s2 false 30 (List.replicate 64 63) (List.replicate s2 62)
+        let f := (dirtyRaw.bind (DH.fromRawForm s2)).bind fun d => DH.initFromRawForm d raw
+        match a, b, c, e, f with
+        | some a, some b, some c, some e, some f =>
+          let same := dhEqAll [a, b, c, e, f]
+          let hw := [b, c, e, f].all fun d => DH.hashWrites d == DH.hashWrites a
+          let ce := [b, c, e, f].all fun d => DH.cmp a d == .eq
           let rawBack := DH.toRawForm s2 a
           let nip := DH.normalizeInPlace s2 a
           let fn := DH.fromNormalized s2 a.norm
@@ -114,7 +141,7 @@ def runDual (cfg : Cfg) (args : List String) : String × String :=
           let rt := strOfBytes (Spec.textOf k b1 b2)
           (s!"n={fhText a.norm} raw={fhText rawBack} rfe={b2s (FH.fullEq rawBack raw)} v={b2s (DH.isValid s2 a)} same={b2s same} hw={b2s hw} ce={b2s ce} isn={b2s a.isNormalized} nip={b2s nipOk} r1={hx a.rle1} r2={hx a.rle2}",
            s!"n={ct} raw={rt} rfe=1 v=1 same=1 hw=1 ce=1 isn={b2s (Spec.collapse b1 == b1 && Spec.collapse b2 == b2)} nip=1")
-        | _, _, _, _ => ("PANIC", "-")
+        | _, _, _, _, _ => ("PANIC", "-")
     | _, _, _, _ => ("bad-op", "-")
   | _ => ("bad-op", "-")
 
